@@ -400,3 +400,30 @@ def widebv_profile(env, w):
         keep.append(o)
     p.ops = keep
     return p
+
+
+def nary5mix_profile(env, compound=False, quant=True, natoms=None):
+    """five-argument And / Or over atoms of different theories (each atom is the only one that brings its theory),
+    or (compound=True) over Boolean symbols and compound Boolean arguments"""
+    p = Profile("nary5mix", env)
+    m = p.m
+    a, b, c = p.sym("a", BOOL), p.sym("b", BOOL), p.sym("c", BOOL)
+    if compound:
+        p.leaf(BOOL, *[a, b, m.And(a, b), m.Or(b, c), m.Iff(a, c), c, m.Not(a)][:natoms or 7])
+    else:
+        x, y = p.sym("x", INT), p.sym("y", INT)
+        r = p.sym("r", REAL)
+        u = p.sym("u", ("BV", 2))
+        st = p.sym("st", STRING)
+        arr = p.sym("A", ("Array", INT, INT))
+        f = p.sym("f", ("Fun", INT, (INT,)))
+        atoms = [a, m.LE(x, y), m.LT(r, m.Real(Fraction(1, 2))), m.Equals(u, m.BV(1, 2)), m.Equals(st, m.String("a")),
+                 m.Equals(m.Select(arr, x), m.Int(0)), m.Equals(m.Function(f, [x]), x)]
+        if quant:
+            atoms.append(m.Exists([p.sym("q", BOOL)], m.Or(p.sym("q", BOOL), b)))
+        if natoms:
+            atoms = atoms[:natoms]
+        p.leaf(BOOL, *atoms)
+    p.op("and5", [BOOL] * 5, BOOL, lambda m, *t: m.And(*t))
+    p.op("or5", [BOOL] * 5, BOOL, lambda m, *t: m.Or(*t))
+    return p
